@@ -720,6 +720,7 @@ theorem step_inv (c : Call) {env : Env} {s : St} (hinv : Inv env s) (f : Nat →
       · exact stepSetErr_inv hinv _ _ f
       · exact stepSetErr_inv hinv _ _ f
       · exact stepThread_inv hinv _ _ _ f
+      · unfold stepLockCycle; split <;> simpa [skip] using hinv
       · exact skip_inv hinv f
 
 end PV.Res
